@@ -394,6 +394,49 @@ def stateful_wrapper(dec_fn: ast.AST, module_names) -> list[str]:
     return sorted(set(found))
 
 
+def mutable_default_leaks(fn_node: ast.AST) -> list[tuple[str, str]]:
+    """parameters whose default is a mutable container built once at definition time ({} / [] / set() / dict() / list()) and which the body mutates,
+    returns or stores: (parameter, how).  One object is then shared by all calls that rely on the default"""
+    a = getattr(fn_node, "args", None)
+    if a is None:
+        return []
+    pos = [*a.posonlyargs, *a.args]
+    pairs = list(zip(pos[len(pos) - len(a.defaults):], a.defaults)) + [(p_, d_) for p_, d_ in zip(a.kwonlyargs, a.kw_defaults) if d_ is not None]
+    MUT = {"append", "extend", "insert", "pop", "remove", "clear", "update", "setdefault", "add", "discard", "popitem", "sort", "reverse"}
+    out = []
+    for p_, d_ in pairs:
+        mutable = isinstance(d_, (ast.Dict, ast.List, ast.Set, ast.ListComp, ast.DictComp, ast.SetComp)) or \
+            (isinstance(d_, ast.Call) and X.U(d_.func) in ("dict", "list", "set", "collections.defaultdict", "defaultdict", "bytearray") )
+        if not mutable:
+            continue
+        name = p_.arg
+        rebound = any(isinstance(n, ast.Name) and n.id == name and isinstance(n.ctx, ast.Store) for n in N.walk_no_nested_defs(fn_node))
+        for n in N.walk_no_nested_defs(fn_node):
+            if isinstance(n, ast.Call) and isinstance(n.func, ast.Attribute) and n.func.attr in MUT and isinstance(n.func.value, ast.Name) and n.func.value.id == name:
+                out.append((name, f"mutated: {X.U(n)[:50]}"))
+            if isinstance(n, (ast.Assign, ast.AugAssign)):
+                for t_ in (n.targets if isinstance(n, ast.Assign) else [n.target]):
+                    if isinstance(t_, ast.Subscript) and isinstance(t_.value, ast.Name) and t_.value.id == name:
+                        out.append((name, f"mutated: {X.U(n)[:50]}"))
+                v_ = n.value
+                if not isinstance(n, ast.AugAssign) and any(isinstance(x, ast.Name) and x.id == name for x in ast.walk(v_)) and \
+                        any(isinstance(t_, (ast.Attribute, ast.Subscript)) for t_ in n.targets) and not rebound:
+                    out.append((name, f"stored: {X.U(n)[:50]}"))
+            if isinstance(n, ast.Return) and n.value is not None and not rebound:
+                # returned as it is (possibly as the fallback of `x or default` / a conditional expression), not as an argument of a call that copies it
+                def bare(e):
+                    if isinstance(e, ast.Name):
+                        return e.id == name
+                    if isinstance(e, ast.BoolOp):
+                        return any(bare(v) for v in e.values)
+                    if isinstance(e, ast.IfExp):
+                        return bare(e.body) or bare(e.orelse)
+                    return False
+                if bare(n.value):
+                    out.append((name, f"returned: {X.U(n)[:50]}"))
+    return sorted(set(out))
+
+
 CONSTRUCTORS = ("__init__", "__post_init__", "__new__", "__init_subclass__")
 
 
@@ -503,6 +546,13 @@ def make_state_rule(prop: str, rule_id: str, prefixes: list[str]):
                                   "a decorator added to a function reachable from the anchored functions keeps no state between calls",
                                   "the wrapper memoises / counts across calls: results depend on the history of the object or process (stale entries survive "
                                   "changes of the inputs they were computed from)", rule=rule_id)
+            ref_md = set(map(tuple, reference().get("mutable_defaults", {}).get(q, [])))
+            for pname, how in mutable_default_leaks(f.node):
+                if (pname, how.split(":")[0]) in ref_md:
+                    continue
+                ctx.violation(f, {"parameter": pname, "default_object": how},
+                              "no function reachable from the anchored functions hands out or changes a mutable default argument",
+                              "the default container is created once: what one call puts into it (or into the object it returned) is seen by every later call that relies on the default", rule=rule_id)
             memo = memoised_mutable(f.node)
             if memo and q not in memoised_ok():
                 ctx.violation(f, {"memoised_by": memo, "returns": X.U(f.node.returns) if f.node.returns is not None else None},
